@@ -531,6 +531,10 @@ def arith(op: str, a: Term, b: Term) -> Term:
             return Lin.of(b).scale(a[1]).term()
         if is_c(b) and isinstance(b[1], (int, float)):
             return Lin.of(a).scale(b[1]).term()
+    if op == "floordiv" and is_c(b) and isinstance(b[1], int) and b[1] > 0 and a[0] in ("lin", "len"):
+        la = Lin.of(a)
+        if all(isinstance(q, int) and q % b[1] == 0 for q in la.coef.values()) and isinstance(la.const, int) and la.const % b[1] == 0:
+            return Lin({t: q // b[1] for t, q in la.coef.items()}, la.const // b[1]).term()
     if op == "truediv" and is_c(b) and isinstance(b[1], (int, float)) and lin_ok(a) and a[0] in ("lin", "len") :
         la = Lin.of(a)
         if all(k % b[1] == 0 for k in la.coef.values()) and la.const % b[1] == 0 and isinstance(b[1], int):
@@ -654,9 +658,9 @@ def index_value(I: Any, base: Term, idx: Term, st: Any, ctx: Any, node: ast.AST)
             return ("item", ("tuple", tuple(ho.items)), idx)
         if ho.kind == "dict" and not ho.symbolic:
             return dict_lookup(I, ho.items, idx, st, where, I.describe(base, st))
-        if ho.kind == "obj" and ho.symbolic:
-            st.may_raise("KeyError", ("cmp", "not in", idx, ("keysof", ("sym", ho.name, "any"))), where)
-            return ("item", ("sym", ho.name, "any"), idx)
+        if (ho.kind == "obj" and ho.symbolic) or (ho.kind == "dict" and ho.symbolic):
+            st.may_raise("KeyError", ("cmp", "not in", I.canon_cmp_operand(idx, st), ("keysof", ("sym", ho.name, "any"))), where)
+            return ("item", ("sym", ho.name, "any"), I.canon_cmp_operand(idx, st))
     if base[0] == "splitlist":
         if isinstance(i, int) and i >= 0:
             st.may_raise("IndexError", ("cmp", "<=", ("nparts", base), c(i)), where)
@@ -672,6 +676,7 @@ def index_value(I: Any, base: Term, idx: Term, st: Any, ctx: Any, node: ast.AST)
         return r
     if base[0] in ("sym", "item", "attr", "app", "lookup"):
         typ = base[2] if base[0] == "sym" else None
+        idx = I.canon_cmp_operand(idx, st)
         st.may_raise("KeyError" if typ in ("json", "dict", "any", None) else "IndexError",
                      ("cmp", "not in", idx, ("keysof", base)), where)
         return ("item", base, idx)
@@ -982,6 +987,8 @@ def call_method(I: Any, recv: Term, name: str, args: List[Term], kwargs: Dict[st
                 return ("tuple", tuple(v for _, v in ho.items))
             if name == "items":
                 return ("tuple", tuple(("tuple", (k, v)) for k, v in ho.items))
+        if ho.kind == "dict" and ho.symbolic and name in ("keys", "values", "items"):
+            return app("." + name, [("sym", ho.name, "dict")])
         # method of symbolic / external object: observable event
         target = f"{I.describe(recv, st)}.{name}"
         return I.external_call(target, args, kwargs, st, ctx, node, awaited)
@@ -1016,8 +1023,8 @@ def call_method(I: Any, recv: Term, name: str, args: List[Term], kwargs: Dict[st
             if name in ("keys", "values", "items"):
                 return app("." + name, [recv])
         return I.external_call(f"{base}.{name}", args, kwargs, st, ctx, node, awaited)
-    if recv[0] in ("app", "item", "attr", "lookup", "ite", "dec", "uint", "lin", "item?", "eattr"):
-        if recv[0] in ("uint", "lin") or is_int_term(recv):
+    if recv[0] in ("app", "item", "attr", "lookup", "ite", "dec", "uint", "lin", "item?", "eattr", "len"):
+        if recv[0] in ("uint", "lin", "len") or is_int_term(recv):
             if name == "to_bytes":
                 return int_to_bytes(I, recv, args, kwargs, st, ctx, node)
         if recv[0] == "item" and name == "get":
@@ -1131,6 +1138,10 @@ def text_method(I: Any, s: Term, name: str, args: List[Term], kwargs: Dict[str, 
         return ("splitlist", s, args[0] if args else c(None))
     if name == "join":
         items = I.iter_items(args[0], st, ctx, node)
+        a0 = T.to_seq(args[0]) if _textlike(args[0]) else None
+        if items is None and a0 is not None and all(x[0] == "L" for x in a0[2]) and all(x[0] == "L" for x in s[2]):
+            # joining the characters of a literal string
+            return c("".join(x[1] for x in s[2]).join("".join(x[1] for x in a0[2])))
         if items is None:
             return text_of(app("join", [s, args[0]]))
         out: Term = ("seq", kind, ())
